@@ -176,7 +176,11 @@ func worldC09(w *World) {
 		}
 		var raw string
 		if c.ws {
-			body := "ws://example.test/socket?t=" + c.id
+			// (the URL the page's script asked for may carry user info)
+			body := "ws://" + []string{"", "", "alice:s3cret@", "token@", ":pw@"}[t.Choice(5, "ws-userinfo")] + "example.test/socket?t=" + c.id
+			if strings.Contains(body, "@") {
+				w.Probe("shim_open_url_with_user_info")
+			}
 			raw = fmt.Sprintf("POST /shim/open HTTP/1.1\r\nHost: example.test\r\n%s\r\nContent-Length: %d\r\n\r\n%s", strings.Join(hdr, "\r\n"), len(body), body)
 		} else {
 			path := []string{"/p/" + c.id, "/p/" + c.id, "/shim-assets/app.js?t=" + c.id, "/shimmed/" + c.id, "/shim.json"}[t.Choice(5, "plainpath")]
